@@ -16,7 +16,8 @@ ENTRY = 24
 
 def base_disc(rng, nfiles):
     names = rng.sample(["KICK", "SNARE", "HAT", "PAD", "BASS", "LEAD", "STR", "ORGAN"], nfiles)
-    files = [G.SampleFile(n, G.random_words(rng, rng.choice([10, 300, 4026, 5000])), rate=rng.choice([22050, 44100])) for n in names]
+    # entry 0 is always a tiny sample: a damaged size then ends its header inside a multi-byte field
+    files = [G.SampleFile(n, G.random_words(rng, 10 if i == 0 else rng.choice([10, 300, 4026, 5000])), rate=rng.choice([22050, 44100])) for i, n in enumerate(names)]
     return G.Disc([G.Partition([G.Volume("VOL", files, dir_mode=rng.choice(["chain", "run"]))], sectors=14)])
 
 
@@ -112,9 +113,11 @@ def run(ctx, rep: Report, deep: bool = False):
         if berr or lerr or len(base_files) != nfiles:
             rep.findings.append(Finding("akai-undamaged-volume-fails", {"error": berr or lerr, "files": sorted(base_files)}))
             continue
-        entries = range(nfiles) if full else [rng.randrange(nfiles - 1)]
+        entries = range(nfiles) if full else sorted({0, rng.randrange(nfiles - 1)})
         for k in entries:
             for pos in range(ENTRY):
+                if not full and k == 0 and len(entries) > 1 and not (17 <= pos <= 21):
+                    continue  # quick: for the tiny first entry only the size and start fields
                 if pos == 16:
                     vals = range(256)
                 elif full and (pos < 12 or pos >= 17):
